@@ -269,6 +269,9 @@ def proof_status(prop: str, buildinfo: dict) -> dict:
             for a in ax:
                 if a not in ALLOWED_AXIOMS:
                     st["bad_axioms"].append(f"{name}:{a}")
+    if not thms:
+        st["log"] = "property file states no theorem"
+        return st
     missing = [t for t in thms if t not in st["axioms"]]
     if missing:
         st["log"] = "no Print Assumptions output for: " + ", ".join(missing)
@@ -349,6 +352,9 @@ def finish(res: Result, proof: dict, level: str = "proof", trusted=None) -> int:
         print(f"KNOWN-FINDING: property={res.prop} {open_f[fid]['what']}")
     rc = 0
     rp_dir = VERIF / "replays"
+    if rp_dir.exists():
+        for old in rp_dir.glob(f"{res.prop}-*.json"):
+            old.unlink()
     oracle_v = [v for v in real if v["kind"] == "oracle"]
     other_v = [v for v in real if v["kind"] != "oracle"]
     if not proof.get("ok"):
